@@ -294,11 +294,6 @@ class C06(core.PropBase):
             missing |= core.doc_chars(e) - set(self.chars)
         if missing:
             return []
-        # Numerals.v reads ASCII digits only; Python's int() / Decimal() also read the other Unicode decimal digits.
-        # Any final value may be substituted into a numeric range: a non-ASCII decimal digit anywhere puts the case
-        # outside the model's stated numeral domain (the implementation's own outcome class is then all that is checked)
-        if any(ord(ch) > 127 and ch.isdecimal() for v in prep["final"].values() for ch in v.value):
-            return []
         final = [[core.cps(k), core.cps(v.type.value), core.cps(v.value)] for k, v in prep["final"].items()]
         return [["create_verdict", final, core.mval_sx(prep["jt"])]]
 
